@@ -121,3 +121,12 @@ func init() {
 		return RunConc(env, a[0], a[1], a[2])
 	}
 }
+
+func init() {
+	Modes["nrf"] = func(a []string) error {
+		if len(a) != 3 {
+			return fmt.Errorf("nrf <prefix> <cases.json> <out.ndjson>")
+		}
+		return RunNrf(a[0], a[1], a[2])
+	}
+}
